@@ -140,6 +140,10 @@ def gen_plan(seed, tier):
       if st["buffer"] is None and r.chance(0.15):
         # an action of a type the switch cannot know
         st["badact"] = r.pick([12, 100, 0x7fff, 0xffff])
+      if st["buffer"] is None and r.chance(0.12):
+        # data AND a buffer id (the data is then to be ignored, says the
+        # specification; either way the request is answered like any other)
+        st["both"] = r.pick([1, 0x55, 0x7ffffff1])
       if st["buffer"] == "live":
         # the id of a packet the switch is holding right now (from the most
         # recent packet_in not yet used); half of these carry an action the
@@ -412,6 +416,10 @@ def _drive(sim, world, plan, known, hit_known):
       if st.get("nact"):
         sim.probes["huge_refused_packet_out"] += 1
       bid = W.NO_BUFFER if st["buffer"] is None else st["buffer"]
+      if st.get("both") is not None and st["buffer"] is None:
+        bid = st["both"]
+        used_buffers.add(bid)
+        sim.probes["packet_out_data_and_buffer"] += 1
       acts = [("output", st["outp"], 0)] * st.get("nact", 1)
       if st.get("badact") is not None:
         bad = ("raw", struct.pack("!HHL", st["badact"], 8, 0x2320))
@@ -420,7 +428,14 @@ def _drive(sim, world, plan, known, hit_known):
           sim.probes["bad_action_on_live_buffer"] += 1
       raw = W.enc_packet_out(xid, bid, st["inp"], acts, data)
       world.send(raw)
-      if st.get("badact") is not None:
+      if st.get("both") is not None and st["buffer"] is None:
+        if st.get("badact") is not None:
+          # something is wrong with it whichever of the two is used: one
+          # error (unknown action or unknown buffer), about this request
+          E("any", xid, types=(), req=raw)
+        else:
+          E("maybe_error", xid, req=raw)
+      elif st.get("badact") is not None:
         E("error", xid, etype=W.ET_BAD_ACTION,
           codes=(W.BAC_BAD_TYPE, W.BAC_BAD_VENDOR, W.BAC_BAD_VENDOR_TYPE),
           req=raw)
